@@ -14,7 +14,8 @@ condition variable the FIFO of waiters with their mutexes; per mutex its owner a
 accepted by the abstract machine is executed by the implementation model with the same answers in the same order and
 related states (`Abs`), and the invariant `AInv` holds (`impl_step_is_spec_step`, `spec_error_is_impl_error`: the
 converse direction and the error branches).  On top of it, at EVERY state reached by a history:
-`notify_one_wakes_exactly_head`, `notify_all_wakes_exactly_current_waiters`, `timeout_wakes_only_its_waiter`,
+`notify_one_wakes_exactly_head`, `notify_all_wakes_exactly_current_waiters`, `notify_all_mutex_fifo_order`,
+`timeout_wakes_only_its_waiter`,
 `wait_returns_holding_mutex_hist` (whoever is answered while blocked owns the mutex it waited for),
 `free_mutex_has_no_waiter` (a waiter that re-acquires a free mutex overtakes nobody).
 Domain: non-recursive mutexes (world `w0`); events of blocked actors and the re-lock of a mutex by its owner are outside
@@ -314,6 +315,26 @@ theorem notify_all_wakes_exactly_current_waiters {w : World} {s : ASt} (hr : Rea
     · right
       rw [ha'.mq]
       exact List.mem_map_of_mem h
+
+/-- **notify_all queues the waiters on their mutexes in waiting order**, after every history: the FIFO of every mutex `m`
+becomes its old FIFO followed by the woken waiters that wait with `m`, in the order they were waiting on the condition
+variable (registered, `false` attached) — minus the first of them when `m` was free: that one takes the mutex and
+returns.  With `free_mutex_has_no_waiter` and the FIFO hand-off of C04 this is "every woken waiter re-acquires its mutex
+through the mutex FIFO". -/
+theorem notify_all_mutex_fifo_order {w w' : World} {s : ASt} (hr : Reach w s) (a : Aid) (c : Nat)
+    (hb : s.blk a = none) (o : Outs) (hw : w.step (.broadcast a c) = .ok (w', o)) (m : Nat) :
+    (w'.mutexes m).queue = (w.mutexes m).queue ++
+      (((s.cv c).filter (fun x => decide (x.mutex = m))).map (fun x => concM (x.issuer, .flag false))).drop
+        (if (w.mutexes m).owner = none then 1 else 0) := by
+  obtain ⟨ha, hi⟩ := reach_abs hr
+  have hs : astep s (.notifyAll a c) = .ok ((s.wakeList c (s.cv c)).1, (s.wakeList c (s.cv c)).2 ++ [(a, .unit)]) := by
+    simp [astep, hb]
+  obtain ⟨w1, hw1, ha'⟩ := sim_step ha hi hs
+  have hw1' : w.step (.broadcast a c) = .ok (w1, (s.wakeList c (s.cv c)).2 ++ [(a, .unit)]) := hw1
+  rw [hw] at hw1'
+  simp only [Except.ok.injEq, Prod.mk.injEq] at hw1'
+  rw [hw1'.1, ha'.mq, wakeList_queue, ha.mq, ha.own, List.map_append, List.map_drop, List.map_map]
+  rfl
 
 /-- **the timer event wakes only its own waiter**, after every history: it leaves the queue (the others keep their
 order), and re-acquires its mutex exactly like a notified waiter, with the result `true` (timeout) -/
